@@ -174,7 +174,11 @@ func main() {
 	}
 	fail := false
 
-	u := gv.U()
+	u, err := gv.Reach()
+	if err != nil {
+		fmt.Println("gvcheck: FAILED:", err)
+		os.Exit(1)
+	}
 	nf, ng := 0, 0
 	for _, t := range u.Structs {
 		for _, f := range gv.Fields(t) {
